@@ -1,17 +1,19 @@
 """C08 - TOUGH2 grid stays internally consistent under any sequence of edits."""
 import itertools
 from checks import generic
-from contracts import c09
+from contracts import c09, c08
 
 
 def main(tier):
     progs = [('p_embed', True), ('p_embed', False)] + [('p_rename', w) for w in ('swap', 'cycle', 'fresh', 'chain')] + [('p_reorder', m) for m in [(False,) * 4, (True,) * 4, (True, False, True, False)]]
-    return generic.run('C08', 'other', tier, c09, progs, c09.FUNCS, 'c08_gridedits.py', 'wellformed_after_every_edit',
+    return generic.run('C08', 'other', tier, c09, progs, c09.FUNCS + c08.FUNCS, 'c08_gridedits.py', 'wellformed_after_every_edit',
         'exhaustive: every edit sequence up to length 3 (quick) / 4 (thorough) over 4 block names, 2 rock types and all one-to-one partial name maps not colliding with an unrenamed block (swaps, cycles) with operations '
         '{add / delete block, connection, rock type; rename_blocks; rename_rocktype; reorder; demote_block; clean_rocktypes; +; embed}; random sequences up to length 60 on grids from geometries incl. minc; '
         'wf(grid) after every step',
-        trust=('the representation invariant wf(grid) of DESIGN 3/C08 as a plain function', 'pyvc heap model for the rename / reorder obligations', 'z3'),
-        assume=('heap-mutating primitives are exercised exhaustively at small scope, not proved',),
+        trust=('the representation invariant wf(grid) of DESIGN 3/C08 evaluated clause group by clause group on the executor heap (object identities, names, records)', 'pyvc heap model of t2grid / t2block / t2connection / rocktype objects built by the real constructors', 'z3'),
+        assume=('contract requires wf(grid): start grids are a 4-block ring (real constructors, symbolic contents) and the grid fromgeo() builds from a real 2x1x2 rectangular geometry with a symbolic surface (its wf proved first); one operation per obligation program (29 instances)',
+                'sequences of operations and MINC (scipy bisect) are bounded (exhaustive at the stated scope)'),
+        extra=[(c08, c08.PROGRAMS)],
         explanation='clause -> evidence: renaming with swap / cycle / chain / fresh maps loses no block and keeps lookups, lists, connection keys and per-block connection records consistent; reorder with reversed '
-                    'connections keeps the grid well formed: PROVED (heap model). Well-formedness after every enumerated and random edit sequence: BOUNDED (exhaustive at the stated scope). 3 known findings.',
+                    'connections keeps the grid well formed: PROVED (heap model). requires wf(grid) ensures wf(grid\') PROVED clause group by clause group on the real add_block / delete_block / add_connection / delete_connection / add_rocktype / rename_rocktype / clean_rocktypes / sort_rocktypes / demote_block / rename_blocks (swap, 3-cycle, fresh) / reorder / + / embed, on both start grids, and no block is lost by the renaming / reordering operations; replacing a block or rock type object that is in use and deleting a used rock type reproduce the 3 known findings. Well-formedness after every enumerated and random edit sequence: BOUNDED (exhaustive at the stated scope). 3 known findings.',
         bounded_timeout=(1200, 3400))
